@@ -11,12 +11,10 @@
    Equality is component-wise rational equality ([fres_eq], [pres_eq]): the model keeps its results
    reduced with Qred, the generated terms are the raw expressions of the source. *)
 From Coq Require Import ZArith QArith Qabs Qminmax Qround List Bool Lia Lqa.
-From Pandora Require Import Lib.FloatQ Model.Refine Spec.Refine Proofs.RefineP.
+From Pandora Require Import Lib.FloatQ Model.Refine Model.RefineGen Spec.Refine Proofs.RefineP.
 From Pandora Require Gen.RefineKernels.
 Import ListNotations.
 Open Scope Q_scope.
-
-Module G := Pandora.Gen.RefineKernels.
 
 (* ---------------------------------------------------------------- the equivalences *)
 
@@ -121,10 +119,6 @@ Section Methods.
 End Methods.
 
 (* ---------------------------------------------------------------- one pixel of loop_refinement *)
-
-(* the `method` argument of loop_refinement: the generated refinement_method of the configured class *)
-Definition gmethod (K : consts) (me : method) : fl -> fl -> fl -> fl -> measure -> fres :=
-  match me with Vfit => G.vfit K | Quadratic => G.quadratic K end.
 
 Lemma gen_method_eq K me m oc0 c1 oc2 d :
   fres_eq (gmethod K me oc0 (Some c1) oc2 d m) (lift (run_method K me m oc0 c1 oc2)).
@@ -304,10 +298,8 @@ Section GenPixel.
   Variables (me : method) (m : measure) (dmin dmax : Q) (s : Z).
   Hypothesis Hs : (0 < s)%Z.
 
-  (* the generated pixel body with the generated method of the configured class *)
-  Definition gstep (cv : list (option Q)) (disp : option Q) (mask : Z) : pres :=
-    G.loop_pixel K cv disp mask dmin dmax s m (gmethod K me).
-
+  (* the generated pixel body with the generated method of the configured class (Model/RefineGen.v) *)
+  Let gstep := gstep K me m dmin dmax s.
   Let step := loop_pixel K me m dmin dmax s.
 
   Lemma gstep_eq cv disp mask : pres_eq (gstep cv disp mask) (step cv disp mask).
@@ -415,3 +407,50 @@ Section GenPixel.
     intro Y. apply N. rewrite Xd. exact Y.
   Qed.
 End GenPixel.
+
+(* ---------------------------------------------------------------- all pixels, any number of steps *)
+
+Section GenSteps.
+  Variable K : consts.
+  Hypothesis KW : consts_wf K = true.
+  Variables (m : measure) (dmin dmax : Q) (s : Z).
+  Hypothesis Hs : (0 < s)%Z.
+  Let pixel_ok := pixel_ok K dmin dmax s.
+  Let flags_kept := flags_kept K.
+
+  Lemma grefine_map_ok me px : Forall pixel_ok px ->
+    exists l, grefine_map K me m dmin dmax s px = IOk l
+      /\ Forall pixel_ok (reload px l)
+      /\ Forall2 (fun p t => flags_kept (px_mask p) (out_mask t)) px l.
+  Proof.
+    induction 1 as [|p r [F H] _ IH].
+    - exists []. repeat split; constructor.
+    - destruct IH as (l & E & OK & FL).
+      destruct (gen_pixel_total K KW me m dmin dmax s Hs (px_cv p) (px_disp p) (px_mask p) F H) as (d' & c' & mask' & R).
+      exists ((d', c', mask') :: l). cbn [grefine_map]. rewrite R, E.
+      pose proof (gen_pixel_bits K KW me m dmin dmax s Hs _ _ _ _ _ _ R) as B.
+      apply (bits_of_step K KW) in B.
+      split; [reflexivity|]. split.
+      + cbn. constructor; [|exact OK]. split; [exact F|]. cbn [px_mask px_disp].
+        intro V. unfold is_valid in V. destruct B as (_ & _ & B3). rewrite B3 in V.
+        destruct (H V) as (d & Ed & I). rewrite Ed in R.
+        destruct (gen_pixel_props K KW me m dmin dmax s Hs _ _ _ _ V F I R) as (d'' & c'' & mask'' & R' & I' & _).
+        inversion R'. exists d''. split; [reflexivity | exact I'].
+      + constructor; [exact B | exact FL].
+  Qed.
+
+  Lemma grefine_steps_ok mes : forall px last, Forall pixel_ok px ->
+    exists l, grefine_steps K mes m dmin dmax s px last = IOk l
+      /\ ((mes = [] /\ l = last)
+          \/ (Forall2 (fun p t => flags_kept (px_mask p) (out_mask t)) px l /\ Forall pixel_ok (reload px l))).
+  Proof.
+    induction mes as [|me r IH]; intros px last OK.
+    - exists last. split; [reflexivity|]. left. split; reflexivity.
+    - destruct (grefine_map_ok me px OK) as (l1 & E & OK1 & FL1).
+      destruct (IH (reload px l1) l1 OK1) as (l & E2 & D).
+      exists l. cbn [grefine_steps]. rewrite E. split; [exact E2|]. right.
+      destruct D as [[_ D]|[D1 D2]].
+      + subst l. split; assumption.
+      + destruct (flags_compose K px l1 l FL1 D1) as [C R]. split; [exact C|]. rewrite <- R. exact D2.
+  Qed.
+End GenSteps.
